@@ -254,6 +254,7 @@ def recvBody {α : Type} (k : BodyKind) (fs : List (Frame α)) (e : StreamEnd) (
 inductive Ev (α : Type) where
   | frame (f : Frame α)
   | respHeaders (status : Nat)     -- the final HEADERS frame of the response (fields: the snapshot)
+  | infoHeaders (status : Nat)     -- an interim (1xx) HEADERS frame, flushed at once
   | flush
   | fin
 deriving Repr, DecidableEq
@@ -344,6 +345,25 @@ def respond {α : Type} (isHead : Bool) (declared : Int) (explicit : Option Nat)
   let rw := match explicit with | some s => rw.writeHeader s | none => rw
   let (rw, rs) := rw.runOps ops
   ((rw.close trailer).out, rs)
+
+/-- `WriteHeader(1xx)` calls made before the final status is set: `writeHeaderLocked` + `Flush` for
+each; they change nothing else in the responseWriter. -/
+def interimEvents {α : Type} (interim : List Nat) : List (Ev α) :=
+  interim.flatMap fun st => [Ev.infoHeaders st, Ev.flush]
+
+/-- A handler run that first sends the interim responses `interim` (e.g. 100, 103). -/
+def respondInterim {α : Type} (isHead : Bool) (declared : Int) (interim : List Nat) (explicit : Option Nat)
+    (ops : List HOp) (trailer : Option α) : List (Ev α) × List (Nat × WTag) :=
+  let r := respond isHead declared explicit ops trailer
+  (interimEvents interim ++ r.1, r.2)
+
+/-- The response-header loop of `clientConn.RoundTrip` (roundtrip.go): every informational (1xx)
+HEADERS frame is skipped (`continue`) — also a 100 the request did not ask for —, the first other
+HEADERS frame is the response; what follows it is the body part. -/
+def clientFinal {α : Type} : List (Ev α) → Option (Nat × List (Ev α))
+  | [] => none
+  | .respHeaders st :: es => some (st, es)
+  | _ :: es => clientFinal es
 
 /-- Frames of the response body part of an event list (everything after the response HEADERS). -/
 def evFrames {α : Type} : List (Ev α) → List (Frame α)
